@@ -238,6 +238,8 @@ def gen_case(rng, stratum, pairing, tier='quick', delays=None, adversary=None, u
         dur = rng.randint(1, 8)
         if st == 'zero' and rng.random() < 0.6:
             dur = 1
+        if same_start and i >= 2 and rng.random() < 0.5:
+            dur = obs[1]['duration']         # several ingests ending in one and the same step
         if same_start:
             if i == 0:
                 start = t
@@ -321,6 +323,9 @@ def gen_case(rng, stratum, pairing, tier='quick', delays=None, adversary=None, u
     else:
         hot_cap = int(tot / 0.55) + 2 + rng.randint(0, 20)
         cold_cap = rng.choice([hot_cap, 2 * hot_cap, tot + 1])
+        if rng.random() < 0.1:
+            # the magnitude of the shipped configurations (5e11 / 2.5e11) with small data
+            hot_cap, cold_cap = 500000000000, rng.choice([250000000000, 500000000000])
     # ---- algorithm parameters
     alg = {}
     if pairing == 'batch':
